@@ -59,6 +59,7 @@ type Sim struct {
 	gs       map[uint64]*G
 	wake     chan struct{}
 	draining atomic.Bool
+	panicked atomic.Bool
 
 	steps    int
 	hash     uint64
@@ -335,6 +336,9 @@ func (s *Sim) GoLabel(label string, f func()) {
 		s.Probe("spawn_dropped_while_draining")
 		return
 	}
+	if s.panicked.Load() {
+		return
+	}
 	parent := s.G()
 	s.mu.Lock()
 	if label == "" {
@@ -381,7 +385,13 @@ func (s *Sim) GoLabel(label string, f func()) {
 
 // reportPanic turns a panic in a goroutine of the system into a violation of the
 // property whose workload is running.
+// Panicked: a goroutine of the system has panicked. Nothing of the system is run after that:
+// the panic may have unwound through code holding real (unsimulated) locks, e.g. inside the LRU
+// cache, and anything touching them again would block for real.
+func (s *Sim) Panicked() bool { return s.panicked.Load() }
+
 func (s *Sim) reportPanic(g *G, r any, stack []byte) {
+	s.panicked.Store(true)
 	msg := fmt.Sprint(r)
 	culprit := PanicCulprit(msg, string(stack))
 	s.Violate(s.PanicProp, "M-panic", culprit, "goroutine "+g.Label+" panicked: "+msg+"\n"+trimStack(string(stack)))
